@@ -20,7 +20,7 @@ func (c07) NumCases(tier string) int {
 	if tier == "thorough" {
 		return 600_000
 	}
-	return 60_000
+	return 36_000
 }
 
 func (c07) Describe() CheckInfo {
@@ -34,7 +34,7 @@ func (c07) Describe() CheckInfo {
 		},
 		RealCode:       []string{"gopatch main()/mainCmd.Run, patch.Parse/File.Apply, go/format, x/tools/imports, pkg/diff, internal/*"},
 		Stubs:          []string{"package os (simulated filesystem, streams, exit)", "path/filepath walk", "io/ioutil"},
-		RequiredProbes: []string{"misfit-in-place", "misfit-print", "misfit-diff", "misfit-skip-import", "misfit-api", "misfit-refused", "cross-emission-checked", "emission-in-place", "emission-print", "emission-diff", "emission-api", "multi-file"},
+		RequiredProbes: []string{"misfit-in-place", "misfit-print", "misfit-diff", "misfit-skip-import", "misfit-api", "misfit-refused", "cross-emission-checked", "emission-in-place", "emission-print", "emission-diff", "emission-api", "multi-file", "large-file-emission"},
 	}
 }
 
@@ -107,6 +107,19 @@ func (c07) Gen(env *Env, seed uint64, tier string, i int) *Case {
 		}
 		c.Extra["family"] = "template"
 	}
+	if sub == "template" && r.Chance(1, 6) {
+		// make one file large: its output spans many I/O buffers
+		f := c.Files[r.Intn(len(c.Files))]
+		var filler strings.Builder
+		for k := 0; k < 50+r.Intn(60); k++ {
+			fmt.Fprintf(&filler, "\nfunc filler%d(a, b int) int {\n\tif a > b {\n\t\treturn a - b // %d\n\t}\n\treturn b - a\n}\n", k, k)
+		}
+		if d := c.NodeData(f.Path); bytes.HasSuffix(d, []byte("\n")) && !bytes.Contains(d, []byte("\r")) {
+			c.SetNode(world.NodeSpec{Path: f.Path, Kind: "file", Data: append(append([]byte(nil), d...), filler.String()...)})
+			c.Extra["large"] = "1"
+		}
+	}
+	AddDecoys(c, r)
 	if r.Chance(1, 2) {
 		c.Targets = []string{"."}
 	} else {
@@ -151,11 +164,24 @@ func c07Emissions(c *Case, r *RunResult, init []world.FileState, soloPrint func(
 			em[p] = []byte(res)
 		}
 	case c.Flags.Print:
-		if c.Flags.Verbose {
-			return nil, "skip"
-		}
 		// remove the other files' (known, solo) output in path order; what is left is the subject's
 		rest := r.Stdout
+		if c.Flags.Verbose {
+			// -v log lines are whole lines that begin with a target's path (or "generated file ")
+			var kept [][]byte
+			for _, line := range bytes.SplitAfter(rest, []byte("\n")) {
+				isLog := false
+				for _, f := range c.Files {
+					if bytes.HasPrefix(line, []byte(f.Path+": ")) || bytes.HasPrefix(line, []byte("generated file "+f.Path)) {
+						isLog = true
+					}
+				}
+				if !isLog {
+					kept = append(kept, line)
+				}
+			}
+			rest = bytes.Join(kept, nil)
+		}
 		var subj *FileMeta
 		sorted := c.SortedFiles()
 		var before, after []byte
@@ -183,6 +209,14 @@ func c07Emissions(c *Case, r *RunResult, init []world.FileState, soloPrint func(
 				return nil, "skip"
 			}
 			seg := rest[len(before) : len(rest)-len(after)]
+			if c.Flags.Verbose {
+				// a log line glued to a segment that does not end in a newline
+				for _, f := range c.Files {
+					for _, sfx := range []string{": patched\n", ": skipped\n"} {
+						seg = bytes.TrimSuffix(seg, []byte(f.Path+sfx))
+					}
+				}
+			}
 			if len(seg) > 0 {
 				em[subj.Path] = seg
 			}
@@ -228,6 +262,9 @@ func (c07) Eval(env *Env, c *Case) []Violation {
 	}
 	if len(c.Files) > 1 {
 		env.Probe("multi-file")
+	}
+	if c.Extra["large"] == "1" {
+		env.Probe("large-file-emission")
 	}
 	soloCache := map[string][]byte{}
 	soloPrint := func(f FileMeta) []byte {
